@@ -248,6 +248,17 @@ func checkByte(c byteCase) evid.Outcome {
 		if err != nil || !bytes.Equal(hb, want) {
 			return evid.Fail("FHDR with FCtrl %02x encodes to %x (err %v), specification %x", b, hb, err, want)
 		}
+		// an FHDR decoded with n FOpts bytes whose FOpts are then removed encodes with FOptsLen 0
+		var dh lorawan.FHDR
+		if err := dh.UnmarshalBinary(true, append([]byte{}, want...)); err != nil {
+			return evid.Fail("FHDR.UnmarshalBinary(%x): %v", want, err)
+		}
+		dh.FOpts = nil
+		hb2, err := dh.MarshalBinary()
+		want2 := []byte{4, 3, 2, 1, b & 0xf0, 0x34, 0x12}
+		if err != nil || !bytes.Equal(hb2, want2) {
+			return evid.Fail("FHDR decoded from %x with its FOpts then removed encodes to %x (err %v), specification %x (FOptsLen is the number of FOpts bytes)", want, hb2, err, want2)
+		}
 		return evid.Outcome{NonTrivial: n == 15 || b&0xf0 == 0xf0, Class: "fctrl"}
 	case "dlsettings":
 		var d lorawan.DLSettings
@@ -277,6 +288,25 @@ func checkRegistry(c regCase) evid.Outcome {
 	lorawan.VerifResetMACPayloadRegistry()
 	p, size, err := lorawan.GetMACPayloadAndSize(c.Uplink, lorawan.CID(c.CID))
 	s := ref.SpecFor(c.Uplink, c.CID)
+	if s == nil && c.CID >= 0x80 {
+		// proprietary: after a registration the constructor must give independent objects of the registered size
+		if err := lorawan.RegisterProprietaryMACCommand(c.Uplink, lorawan.CID(c.CID), 2); err != nil {
+			return evid.Fail("RegisterProprietaryMACCommand(%v, %#02x, 2): %v", c.Uplink, c.CID, err)
+		}
+		defer lorawan.VerifResetMACPayloadRegistry()
+		a, sa, ea := lorawan.GetMACPayloadAndSize(c.Uplink, lorawan.CID(c.CID))
+		bb, _, eb := lorawan.GetMACPayloadAndSize(c.Uplink, lorawan.CID(c.CID))
+		if ea != nil || eb != nil || sa != 2 {
+			return evid.Fail("proprietary CID %#02x registered with size 2: registry answers size %d err %v", c.CID, sa, ea)
+		}
+		_ = a.UnmarshalBinary([]byte{0xaa, 0xbb})
+		_ = bb.UnmarshalBinary([]byte{0xcc, 0xdd})
+		ab, _ := a.MarshalBinary()
+		if !bytes.Equal(ab, []byte{0xaa, 0xbb}) {
+			return evid.Fail("two payload objects obtained for proprietary CID %#02x share state: the first reads %x after the second decoded ccdd", c.CID, ab)
+		}
+		return evid.Outcome{NonTrivial: true, Class: "proprietary", Key: []byte{c.CID, b2(c.Uplink)}}
+	}
 	if s == nil {
 		if err == nil {
 			return evid.Fail("CID %#02x uplink=%v carries no payload in the specification, the registry has %T of size %d", c.CID, c.Uplink, p, size)
@@ -305,6 +335,11 @@ func checkRegistry(c regCase) evid.Outcome {
 	b, err := m.MarshalBinary()
 	if err != nil || len(b) != 1+s.Len || b[0] != c.CID {
 		return evid.Fail("%s command encodes to %x (err %v), want CID %#02x + %d payload bytes", s.Name, b, err, c.CID, s.Len)
+	}
+	// the registry hands out a fresh payload object every time
+	p2, _, _ := lorawan.GetMACPayloadAndSize(c.Uplink, lorawan.CID(c.CID))
+	if reflect.ValueOf(p).Pointer() == reflect.ValueOf(p2).Pointer() {
+		return evid.Fail("GetMACPayloadAndSize(%v, %#02x) returns the same payload object twice: decoding a second command of this CID would overwrite the first", c.Uplink, c.CID)
 	}
 	return evid.Outcome{NonTrivial: true, Class: "payload", Key: []byte{c.CID, b2(c.Uplink)}}
 }
